@@ -40,7 +40,8 @@ Dom == <<
  [tag |-> "span", id |-> "",  cls |-> {"c"},      attr |-> {<<"title","u">>}, par |-> 2],
  [tag |-> "a",    id |-> "",  cls |-> {"a","c"},  attr |-> {<<"href","h">>},  par |-> 3],
  [tag |-> "div",  id |-> "",  cls |-> {"b","c"},  attr |-> {},                par |-> 1],
- [tag |-> "span", id |-> "",  cls |-> {"a"},      attr |-> {},                par |-> 7] >>
+ [tag |-> "span", id |-> "",  cls |-> {"a"},      attr |-> {},                par |-> 7],
+ [tag |-> "p",    id |-> "",  cls |-> {"a","c"},  attr |-> {},                par |-> 8] >>
 Elems == 1..Len(Dom)
 Par(e) == Dom[e].par
 RECURSIVE Anc(_)
@@ -241,6 +242,7 @@ NestSels ==
   ":not(&) .c" :> <<Then(One(WithPs(Cp("", {}, ""), <<Ps("not", <<One(AmpC)>>)>>)), " ", Cl("c"))>> @@
   "&#s,&.b" :> <<One(WithAmp(Id("s"))), One(WithAmp(Cl("b")))>> @@
   "&:where(.a,.c)" :> <<One(WithPs(AmpC, <<Ps("where", <<One(Cl("a")), One(Cl("c"))>>)>>))>> @@
+  ":is(&,#s)>span" :> <<Then(One(WithPs(Cp("", {}, ""), <<Ps("is", <<One(AmpC), One(Id("s"))>>)>>)), ">", Ty("span"))>> @@
   ".c:is(&)" :> <<One(WithPs(Cl("c"), <<Ps("is", <<One(AmpC)>>)>>))>> @@
   "&" :> <<One(AmpC)>>
 
